@@ -1115,6 +1115,7 @@ func (c *Conn) handleBdat(arg string) {
 
 		c.reset()
 	} else {
+		c.lineLimitReader.LineLimit = c.server.MaxLineLength
 		c.writeResponse(250, EnhancedCode{2, 0, 0}, "Continue")
 	}
 }
